@@ -54,6 +54,7 @@ type E7Spec struct {
 	InPlaceFilter []FuncRuleSpec     `json:"inplace_filter"`
 	WriteBack     []FuncRuleSpec     `json:"write_back"`
 	Shadow        []FuncRuleSpec     `json:"shadowed_result"`
+	Forbidden     []ForbiddenSpec    `json:"forbidden_calls"`
 }
 
 type FuncRuleSpec struct {
@@ -200,6 +201,9 @@ func runE7(p *Program, sp *Spec, c *Collector) {
 	}
 	for _, sh := range t.Shadow {
 		runShadow(p, c, sh)
+	}
+	for _, fb := range t.Forbidden {
+		runForbidden(p, c, fb)
 	}
 	for _, n := range t.NoExit {
 		runNoExit(p, sp, c, n)
@@ -3572,4 +3576,56 @@ func passedToUnusedParam(p *Program, pk *packages.Package, file *ast.File, id *a
 		return true
 	})
 	return res
+}
+
+// ---------------------------------------------------------------------------------------------
+// forbidden calls: a function must obtain something one way and not another (the git log is what git writes to stdout;
+// CombinedOutput mixes git's warnings on stderr into the text the parser reads).
+type ForbiddenSpec struct {
+	Props   []string `json:"props"`
+	Func    string   `json:"func"`
+	Callees []string `json:"callees"` // must not be called
+	Instead []string `json:"instead"` // one of these must be called
+	What    string   `json:"what"`
+}
+
+func runForbidden(p *Program, c *Collector, fb ForbiddenSpec) {
+	fn := p.Func(fb.Func)
+	if fn == nil {
+		c.Anchor(fb.Props, "E7: forbidden calls: %s does not resolve", fb.Func)
+		return
+	}
+	key := "forbidden:" + fb.Func
+	var bad ssa.Instruction
+	badName := ""
+	good := false
+	for _, f := range append([]*ssa.Function{fn}, allAnon(fn)...) {
+		for _, b := range f.Blocks {
+			for _, in := range b.Instrs {
+				ci, ok := in.(ssa.CallInstruction)
+				if !ok || ci.Common().StaticCallee() == nil {
+					continue
+				}
+				n := fullFuncName(ci.Common().StaticCallee())
+				for _, x := range fb.Callees {
+					if n == x && bad == nil {
+						bad, badName = in, n
+					}
+				}
+				for _, x := range fb.Instead {
+					if n == x {
+						good = true
+					}
+				}
+			}
+		}
+	}
+	switch {
+	case bad != nil:
+		c.Ob(fb.Props, "E7.forbidden-call", key, Violated, fb.What+": "+shortFn(fb.Func)+" calls "+badName, p.InstrPos(bad), false)
+	case len(fb.Instead) > 0 && !good:
+		c.Ob(fb.Props, "E7.forbidden-call", key, Undecided, fb.What+": none of "+strings.Join(fb.Instead, ", ")+" is called any more", p.FuncPos(fn), false)
+	default:
+		c.Ob(fb.Props, "E7.forbidden-call", key, Discharged, fb.What, p.FuncPos(fn), true)
+	}
 }
